@@ -4814,6 +4814,7 @@ type enterFinally struct{}
 func (enterFinally) exec(vm *vm) {
 	tf := &vm.tryStack[len(vm.tryStack)-1]
 	tf.finallyPos = -1
+	tf.catchPos = -1 // an exception thrown inside 'finally' must not be caught by this statement's own 'catch'
 	vm.pc++
 }
 
